@@ -1,6 +1,8 @@
 import H4.VData
 import H4.Format
 import H4.Gen.Fn.Vio
+import H4.Gen.Fn.Vio3
+import H4.Gen.Vs
 import H4.Driver.Util
 namespace H4.Driver
 open H4.VData
@@ -68,6 +70,88 @@ def pack (v : H4.Format.VH) (model : List UInt8) : String :=
   else s!" GEN={toHex (toBytes (s.buf.take (s.size.getD 0 0).toNat))}/{s.size.getD 0 0}/tail={toHex (toBytes (s.buf.drop model.length))}"
 end GenVs
 
+/-! `unpackvs`: `vunpackvs` as TRANSLATED from the current C text of vio.c (`H4.Gen.Fn.Vio3`) is run on the bytes of the line, on a zeroed
+    `*vs` (what `VSIget_vdata_node` hands to `VSPgetinfo`: every pointer NULL, `vsname` / `vsclass` = 65 zero bytes) and a buffer that
+    ENDS with the record (`len` cells).  `map_from_old_types` is the generated table `H4.Gen.Vs.MAP_OLD_TYPES` (identity outside 0..15);
+    `DFKNTsize` only feeds `wlist.esize`, which the harness does not print.  The harness prints `refused` when the real call left
+    `buf[0..len)` (the child died in a guard page) or returned FAIL: the translated run then reports `ub` or `ret = FAIL`.  The ANSWER of
+    the driver is the translated function's.  The hand-written reader `H4.Format.vunpackvs` is stricter (exact length, field names
+    without NUL are not required, …): where it accepts the record and `H4.Props.C07Fn3.Pre` holds, theorem `vunpackvs_refines` says what
+    the translated run leaves; the driver recomputes that and appends ` MODEL=…` on a difference. -/
+namespace GenVsU
+open H4.Gen.Fn.Vio3
+def mapOld (x : Int) : Int := if 0 ≤ x ∧ x < 16 then (H4.Gen.Vs.MAP_OLD_TYPES.getD x.toNat 0 : Nat) else x
+def run (b : List UInt8) : vunpackvs.St :=
+  vunpackvs mapOld (fun _ => 0) (fuel := b.length + 1) (vs_version := 0) (vs_more := 0) (vs_interlace := 0) (vs_nvertices := 0)
+    (vs_wlist_ivsize := 0) (vs_wlist_n := 0) (vs_wlist_bptr_null := true) (vs_wlist_type_null := true) (vs_wlist_off_null := true)
+    (vs_wlist_isize_null := true) (vs_wlist_order_null := true) (vs_wlist_esize_null := true) (vs_wlist_name_null := true)
+    (vs_wlist_bptr := []) (vs_wlist_type := 0) (vs_wlist_off := 0) (vs_wlist_isize := 0) (vs_wlist_order := 0) (vs_wlist_esize := 0)
+    (vs_wlist_name := []) (vs_vsname := List.replicate 65 0) (vs_vsclass := List.replicate 65 0) (vs_extag := 0) (vs_exref := 0)
+    (vs_flags := 0) (vs_nattrs := 0) (vs_alist_null := true) (vs_alist_findex := []) (vs_alist_atag := []) (vs_alist_aref := [])
+    (buf := b.map fun x => (x.toNat : Int)) (len := b.length)
+def cstrHex (l : List Int) : String := toHex ((l.takeWhile (· ≠ 0)).map fun x => UInt8.ofNat x.toNat)
+def showRow (l : List (Int × Int × Int × Int × String)) (attrs : List (Int × Int × Int)) (h : List String) (t : List String) : String :=
+  let fs := if l.isEmpty then "-" else ",".intercalate (l.map fun (ty, is, off, ord, nm) => s!"{ty}:{is}:{off}:{ord}:{nm}")
+  let as := if attrs.isEmpty then "-" else ",".intercalate (attrs.map fun (f, a, r) => s!"{f}:{a}:{r}")
+  " ".intercalate (h ++ [fs] ++ t ++ [as])
+/-- the line the harness prints for the state the translated function leaves -/
+def answer (s : vunpackvs.St) : String :=
+  if s.ub || s.ret == -1 then "refused" else
+  let n := s.vs_wlist_n.toNat
+  let cell (base : Int) (i : Nat) : Int := s.vs_wlist_bptr.getD (base.toNat + i) 0
+  let fields := if s.vs_wlist_n ≤ 0 || s.vs_wlist_type_null then [] else
+    (List.range n).map fun i => (cell s.vs_wlist_type i, cell s.vs_wlist_isize i, cell s.vs_wlist_off i, cell s.vs_wlist_order i,
+      cstrHex (s.vs_wlist_name.getD i []))
+  let na := s.vs_nattrs.toNat
+  let attrs := if s.vs_nattrs ≤ 0 || s.vs_alist_null then [] else
+    (List.range na).map fun i => (s.vs_alist_findex.getD i 0, s.vs_alist_atag.getD i 0, s.vs_alist_aref.getD i 0)
+  showRow fields attrs [toString s.vs_interlace, toString s.vs_nvertices, toString s.vs_wlist_ivsize]
+    [cstrHex s.vs_vsname, cstrHex s.vs_vsclass, toString s.vs_extag, toString s.vs_exref, toString s.vs_version, toString s.vs_more,
+     toString s.vs_flags]
+/-- what theorem `vunpackvs_refines` says about a record the hand-written reader accepts (`none`: its hypothesis `Pre` fails) -/
+def expected (v : H4.Format.VH) : Option String :=
+  let cs (b : List UInt8) : List UInt8 := b.takeWhile (· ≠ 0)
+  let pre := v.version ≤ 4 && v.fields.all (fun f => f.name.length < 32768) && v.name.length < 32768 && v.cls.length < 32768 &&
+    (cs v.name).length < 65 && (cs v.cls).length < 65 && (v.flags % 2 = 0 || v.attrs.length < 2147483648)
+  if !pre then none else
+  let fields := v.fields.map fun f => ((if v.version ≤ 2 then mapOld f.type else f.type), (f.isize : Int), (f.off : Int), (f.order : Int), toHex (cs f.name))
+  let attrs := if v.version = 4 ∧ v.flags % 2 = 1 then v.attrs.map fun a => (a.findex, (a.atag : Int), (a.aref : Int)) else []
+  some (showRow fields attrs [toString v.interlace, toString v.nvert, toString v.ivsize]
+    [toHex (cs v.name), toHex (cs v.cls), toString v.extag, toString v.exref, toString v.version, toString v.more,
+     toString (if v.version = 4 then v.flags else 0)])
+/-- a version-4 record with `VS_ATTR_SET` whose fields up to `nattrs` lie inside the record, with a positive `nattrs` larger than the
+    record: the C code allocates `nattrs` cells before it runs off the record; the translated run would build a list of that size, so it
+    is skipped (the real call was refused in the guard, or by the allocator) -/
+def hugeAlloc (b : List UInt8) : Bool :=
+  let g16 (p : Nat) : Option Nat := if p + 2 ≤ b.length then some ((b.getD p 0).toNat * 256 + (b.getD (p + 1) 0).toNat) else none
+  let str (p : Nat) : Option Nat := do let l ← g16 p; if l ≥ 32768 then none else some (p + 2 + l)
+  let na : Option Nat := do
+    if b.length < 5 then none
+    let version ← g16 (b.length - 5)
+    if version ≠ 4 then none
+    let n ← g16 8
+    if n ≥ 32768 then none
+    let p ← (List.range n).foldlM (fun p _ => str p) (10 + 8 * n)
+    let p ← str p
+    let p ← str p
+    let fl ← g16 (p + 10)
+    if fl % 2 = 0 then none
+    let hi ← g16 (p + 12)
+    let lo ← g16 (p + 14)
+    some (hi * 65536 + lo)
+  match na with
+  | some na => na < 2147483648 && na > b.length
+  | none => false
+def unpack (b : List UInt8) : String :=
+  if hugeAlloc b then "refused" else
+  let s := run b
+  let a := answer s
+  if a != "refused" && s.oof then "oof" else
+  match (H4.Format.vunpackvs b).bind expected with
+  | some e => if a == e then a else s!"{a} MODEL={e}"
+  | none => a
+end GenVsU
+
 def stepVs (st : VsState) (args : List String) : VsState × String :=
   let v := st.v
   match args with
@@ -79,6 +163,9 @@ def stepVs (st : VsState) (args : List String) : VsState × String :=
       let model := H4.Format.vpackvs h
       (st, toHex model ++ GenVs.pack h model)
     | _, _, _, _, _, _, _, _, _, _, _, _ => (st, "bad-op")
+  | ["unpackvs", h] => match parseHex h with
+    | some b => (st, GenVsU.unpack b)
+    | none => (st, "bad-op")
   | ["vtbuf", n] => ({ st with vtb := n.toNat?.getD 0 }, "ok")
   | ["fdefine", name, t, order] =>
     match parseNat t, parseNat order with
